@@ -233,3 +233,17 @@ def run(ctx):
                       f"{'raised ' + m['error'] if m['error'] else 'result ' + m['result'] + ' differs from the reference ' + m['reference']}", m,
                       {"what": "container-dependence", "object": m["object"], "entry": m["entry"], "container": m["container"],
                        "columns": m["columns"], "raises": m["error"] is not None})
+    # ---- further representations of the same numbers (harness/variants.py): repeated index labels, columns sharing a label, large int64 values, a frame whose
+    # ---- columns are permuted relative to the training frame, nothing detected; the caller's object is not modified and results handed out stay what they were
+    from harness.variants import variants_stream
+    from skchange.anomaly_detectors import CAPA as _CAPA, MVCAPA as _MVCAPA, CircularBinarySegmentation as _CBS, StatThresholdAnomaliser as _STA
+    from skchange.change_detectors import PELT as _PELT, MovingWindow as _MW, SeededBinarySegmentation as _SBS
+    k = ctx.n(1, 6)
+    variants_stream(ctx, "PELT", lambda: _PELT(min_segment_length=2), k)
+    variants_stream(ctx, "MovingWindow", lambda: _MW(bandwidth=5), k, flat_make=lambda: _MW(bandwidth=5, threshold_scale=1e6))
+    variants_stream(ctx, "SeededBinarySegmentation", lambda: _SBS(min_segment_length=2), k)
+    variants_stream(ctx, "CircularBinarySegmentation", lambda: _CBS(min_segment_length=2, max_interval_length=40), k, n_range=(30, 44))
+    variants_stream(ctx, "CAPA", lambda: _CAPA(min_segment_length=2, max_segment_length=30), k)
+    variants_stream(ctx, "MVCAPA", lambda: _MVCAPA(min_segment_length=2, max_segment_length=30), k,
+                    flat_make=lambda: _MVCAPA(min_segment_length=2, collective_penalty_scale=1e6, point_penalty_scale=1e6))
+    variants_stream(ctx, "StatThresholdAnomaliser", lambda: _STA(_PELT(min_segment_length=2), stat_lower=-1.0, stat_upper=1.0), k, p_choices=(1,))
